@@ -3,6 +3,8 @@ version-chain mutation, latest-only scans, delete empties the chain."""
 from ..cfg import Body
 from ..report import where
 from .. import storemodel as sm
+from .. import mutpoints as mp
+from .. import orderdom as od
 
 LEVEL = "other"
 GS = sm.GS
@@ -76,5 +78,80 @@ def run(ctx, F, cg):
         ctx.violation("R07c", "delete_node|pops-one-version", where(dn, pops[0].line), "delete_node removes only the newest version (%s): after SET at version v2 and DELETE, get_node still finds the v1 entry, and the recycled id inherits it" % pops[0].path.rsplit("::", 1)[-1])
     else:
         ctx.violation("R07c", "delete_node|chain-untouched", where(dn), "delete_node does not empty the version chain")
+    # ---- R07d / R07e: relationship property history -----------------------------------------------------
+    ctx.rule("R07d", "every store mutator that changes the properties of an existing relationship (set / remove) writes the relationship version log: an unlogged change makes a read at that version return the previously logged state once the version moves on")
+    ctx.rule("R07e", "the log holds post-images, so the function that appends to it also records the state a relationship's first logged write replaces: some appended entry takes its properties from a read of the live property map made before the first property mutation of that call")
+    LOG = "edge_version_log"
+    for kind in ("edge-prop-set", "edge-prop-kill"):
+        for n in sm.KINDS[kind]:
+            r = sm.fn_of(F, n)
+            if r is None:
+                ctx.anchor_failure("R07d", GS + "::" + n)
+                continue
+            w = sm.weffects(F, cg, n) or set()
+            callers = [p for p, rr in F.fns.items() if r["path"] in rr["calls"] and "::tests::" not in p]
+            if LOG in w:
+                ctx.ok("R07d", n, "writes the relationship version log (transitively)")
+            elif callers and all((p.startswith(GS + "::") and LOG in (sm.weffects(F, cg, p.replace(GS + "::", "")) or set())) or _creates_edge(F, p) for p in callers):
+                ctx.ok("R07d", n + "|creation-or-logged-caller", "only called while creating a relationship or from a store mutator that logs (%d callers)" % len(callers))
+            else:
+                bad = [p for p in callers if not ((p.startswith(GS + "::") and LOG in (sm.weffects(F, cg, p.replace(GS + "::", "")) or set())) or _creates_edge(F, p))]
+                ctx.violation("R07d", n + "|unlogged-property-change", where(r), "GraphStore::%s changes relationship properties without writing the version log%s" % (n, (" (reached from %s)" % bad[0].replace("samyama::", "")) if bad else ""))
+    appenders = []
+    for p, r in sorted(F.fns.items()):
+        if not p.startswith(GS + "::") or "::tests::" in p:
+            continue
+        m = F.mir(p)
+        if not m:
+            continue
+        b = Body(m, r)
+        aggs = [(i, rv, line) for i, j, pl, rv, line, exp in b.stmts() if rv[0] == "agg" and rv[1].endswith("EdgeVersionEntry")]
+        if aggs:
+            appenders.append((p, r, b, aggs))
+    ctx.floor("R07e", "functions appending to the relationship version log", len(appenders), 1)
+    adt = F.adt("store::EdgeVersionEntry")
+    fields = [f[0] for f in adt["variants"][0]["fields"]]
+    for p, r, b, aggs in appenders:
+        short = p.replace(GS + "::", "")
+        ctx.saw_fn(p)
+        # a pre-image is an entry whose properties come from a parameter (handed in by a caller that read them before mutating)
+        # or from a read of edge_properties not reachable from a mutation point of this function
+        muts = mp.mutation_points(F, cg, b)
+        pre = False
+        for i, rv, line in aggs:
+            o = rv[2][fields.index("properties")]
+            if o[0] == "k":
+                continue
+            og = b.origins(o[1][0], through_calls=lambda c: list(range(len(c.args))) if c.path.rsplit("::", 1)[-1] in ("cloned", "clone", "unwrap_or_default", "unwrap_or", "get", "deref", "as_ref", "unwrap", "expect", "branch", "map", "take") else None)
+            if any(x[0] == "arg" and 1 < x[1] <= b.argc for x in og):
+                # parameter: every caller must compute it before its own first mutation
+                ok_callers = True
+                for q, rq in F.fns.items():
+                    if p in rq["calls"] and "::tests::" not in q:
+                        bq = Body(F.mir(q), rq)
+                        mq = mp.mutation_points(F, cg, bq)
+                        for c in bq.calls():
+                            if c.path != p:
+                                continue
+                            argl = [a for a in c.args[1:] if a[0] != "k"]
+                            srcs = [x for a in argl for x in bq.origins(a[1][0]) if x[0] == "call" and x[1].path.startswith(GS + "::")]
+                            first_mut = [mb for mb, ml, mw in mq]
+                            for x in srcs:
+                                if any(x[1].bb in bq.reachable(mb) and x[1].bb != mb for mb in first_mut if mb != c.bb):
+                                    ok_callers = False
+                if ok_callers:
+                    pre = True
+        if pre:
+            ctx.ok("R07e", short, "an appended entry carries the state read before the call's first property mutation (base image)")
+        else:
+            ctx.violation("R07e", short + "|no-base-image", where(r, aggs[0][2]),
+                          "%s appends only post-images to the relationship version log: a relationship created with properties has no entry until its first update, and a read at an older version then returns the current properties" % short)
     return ("Decided: which store functions can rewrite an old version in place (no copy-on-write guard), which scans enumerate all versions, and whether "
-            "deletion empties the chain — the three structural ways the property breaks. Not decided: edge version-log pre/post-image semantics, values at a version.")
+            "deletion empties the chain — the three structural ways the property breaks. and, for relationships, that every property change is logged and the first logged write keeps the state it replaces. Not decided: values at a version.")
+
+
+def _creates_edge(F, p):
+    r = F.fns.get(p)
+    if not r:
+        return False
+    return any(c.startswith(GS + "::create_edge") for c in r["calls"])
